@@ -263,14 +263,14 @@ def main(tier="quick", logdir=None, select=""):
             fr = M.Frame(ctx, ctx.func(ctx.find(">::all_headers_len")), [cfg])
             ahl, p4 = fr.run()
             f = mtd_fields(cfg)
-            MAXLOG = 2 if tier == "quick" else 5
-            SZ = 1 << 12 if tier == "quick" else 1 << 20
+            MAXLOG = 2 if tier == "quick" else 3
+            SZ = 1 << 12 if tier == "quick" else 1 << 16
             maxal = "(ite (bvuge (ite (bvuge {ha} {ua}) {ha} {ua}) {pa}) (ite (bvuge {ha} {ua}) {ha} {ua}) {pa})".format(**f)
             # alignments are instantiated per case (constant power-of-two divisors make the remainder cheap);
             # sizes, element count and chunk start stay symbolic in every case
             # the element count is instantiated per case as well: symbolic-by-symbolic 64-bit multiplication
             # (payload size x element count) is what stalls both solvers; sizes and the chunk start stay symbolic
-            NELS = (0, 1, 2, 3) if tier == "quick" else (0, 1, 2, 3, 5, 8, 100, 255)
+            NELS = (0, 1, 2, 3) if tier == "quick" else (0, 1, 2, 3, 5, 8)
             align_cases = [["(= %s %s)" % (f["ha"], M.bv(1 << a)), "(= %s %s)" % (f["ua"], M.bv(1 << b)), "(= %s %s)" % (f["pa"], M.bv(1 << c)),
                             "(= %s %s)" % (n_el, M.bv(n))]
                            for a in range(MAXLOG + 1) for b in range(MAXLOG + 1) for c in range(MAXLOG + 1) for n in NELS]
@@ -348,7 +348,7 @@ def main(tier="quick", logdir=None, select=""):
                     "solver_time_s": round(r.get("z3_s", 0) + r.get("cvc5_s", 0), 2), "checks": 1,
                     "success": 1 if r["status"] == "pass" else 0, "unreachable": 0, "covers": [], "stubs": [],
                     "functions": [], "what": r["query"], "bounds": "64-bit bit-vectors; parameters < 2^16 (server formula < 2^10); "
-                    "quick: sizes < 2^12, alignments 1/2/4 and element counts 0..3 instantiated per solver case (108 cases per obligation), chunk start < 2^32; thorough: sizes < 2^20, alignments <= 64, < 256 elements, start < 2^40", "log": os.path.join(MIRDIR, "queries")})
+                    "quick: sizes < 2^12, alignments 1/2/4 and element counts 0..3 instantiated per solver case (108 cases per obligation), chunk start < 2^32; thorough: sizes < 2^16, alignments 1/2/4/8, element counts 0,1,2,3,5,8 (384 cases per obligation), start < 2^40", "log": os.path.join(MIRDIR, "queries")})
     summary = {"vectors_ok": vectors_ok, "wall_s": round(time.time() - t0, 1)}
     return out, summary
 
